@@ -1,18 +1,30 @@
 #!/bin/bash
 # Runs every seeded change against the check of its own property (plus the cross-detections recorded in DESIGN.md),
-# writes /verif/seeded/matrix.tsv and fills "detected_by" in each meta.json.  Sequential: every check uses all cores.
+# writes /verif/seeded/matrix.tsv and fills "detected_by" in each meta.json.
+# usage: tools/full_matrix.sh [shards]     (default 1; with N > 1 the seeds are dealt round-robin to N concurrent workers)
 cd /verif
-out=/verif/seeded/matrix.tsv; : > $out
-extra() { case "$1" in C03-b) echo C17;; C17-b) echo C01;; C10-b) echo C09;; C15-a) echo C04;; C01-c) echo C17;; C14-c) echo C01 C03;; C08-c) echo C18;; C03-c) echo C17 C01;; esac; }
-for d in ${MATRIX_SEEDS:-seeded/C*-[c-z] seeded/C*-[ab]}; do
-  s=$(basename $d); own=${s%-*}
-  for chk in $own $(extra $s); do
-    line=$(tools/seed_matrix.sh $s $chk 2>&1 | tail -1)
-    rc=$(echo "$line" | grep -o "exit=[0-9]*" | cut -d= -f2); n=$(echo "$line" | grep -o "violations=[0-9]*" | cut -d= -f2)
-    first=$(echo "$line" | sed 's/.*violations=[0-9]* //' | cut -c1-160)
-    printf "%s\t%s\t%s\t%s\t%s\n" "$s" "$chk" "${rc:-?}" "${n:-0}" "$first" >> $out
+shards=${1:-1}
+extra() { case "$1" in C03-b) echo C17;; C17-b) echo C01;; C10-b) echo C09;; C15-a) echo C04;; C01-c) echo C17;; C14-c) echo C01 C03;; C08-c) echo C18;; C03-c) echo C17 C01;; C15-d) echo C04;; C11-d) echo C09;; esac; }
+seeds=(${MATRIX_SEEDS:-$(ls -d seeded/C*-[c-z] seeded/C*-[ab])})
+worker() {
+  w=$1; out=/verif/seeded/.matrix.$w.tsv; : > $out
+  i=0
+  for d in "${seeds[@]}"; do
+    if [ $((i % shards)) -eq $w ]; then
+      s=$(basename $d); own=${s%-*}
+      for chk in $own $(extra $s); do
+        line=$(tools/seed_matrix.sh $s $chk 2>&1 | tail -1)
+        rc=$(echo "$line" | grep -o "exit=[0-9]*" | cut -d= -f2); n=$(echo "$line" | grep -o "violations=[0-9]*" | cut -d= -f2)
+        first=$(echo "$line" | sed 's/.*violations=[0-9]* //' | cut -c1-160)
+        printf "%s\t%s\t%s\t%s\t%s\n" "$s" "$chk" "${rc:-?}" "${n:-0}" "$first" >> $out
+      done
+    fi
+    i=$((i + 1))
   done
-done
+}
+for w in $(seq 0 $((shards - 1))); do worker $w & done
+wait
+sort -V /verif/seeded/.matrix.*.tsv > /verif/seeded/matrix.tsv; rm -f /verif/seeded/.matrix.*.tsv
 python3 - <<'EOP'
 import json,collections
 det=collections.defaultdict(list)
